@@ -4,7 +4,7 @@ CONSTANTS
   TagIdx = {1, 5, 9}
   Merchants = {"m1", "m2"}
   Cats = {"c1"}
-  Months = {"2024-12", "2025-01"}
+  Months = {"2024-12", "2025-01", "2024-01"}
   Sources = {"s1"}
   MaxLen = 4
 INVARIANT ExactlyOneBucket
